@@ -692,6 +692,106 @@ fn sec_recover(s: &mut Sink, rng: &mut Rng, workloads: usize, mutations: usize) 
     }
 }
 
+fn merr_name(e: &feoxdb::MigrationError) -> String {
+    use feoxdb::MigrationError::*;
+    match e {
+        InvalidDestination(_) => "InvalidDestination".into(),
+        DestinationExists(_) => "DestinationExists".into(),
+        CurrentFormat(_) => "CurrentFormat".into(),
+        KeyTooLarge { .. } => "KeyTooLarge".into(),
+        DestinationTooLarge => "DestinationTooLarge".into(),
+        SourceChanged => "SourceChanged".into(),
+        DestinationChanged => "DestinationChanged".into(),
+        VerificationFailed(_) => "VerificationFailed".into(),
+        AmbiguousLegacyRecovery => "AmbiguousLegacyRecovery".into(),
+        Io { .. } => "Io".into(),
+        Store(e) => format!("Store:{}", err_name(e)),
+    }
+}
+
+/// legacy (and a few current-format) images through the real `migrate`, with and without the
+/// ambiguous-marker opt-in; the driver reads both files and compares what they hold
+fn sec_migrate(s: &mut Sink, rng: &mut Rng, workloads: usize, oracle: &mut Vec<String>) {
+    let base = 1_700_000_000_000_000_000u64;
+    for w in 0..workloads {
+        let version = *rng.pick(&[2u32, 2, 1, 1, 3]);
+        let blocks = rng.range(20, 64);
+        let ttl = rng.chance(1, 2);
+        let path = format!("{}/mig{}.feox", s.dir, w);
+        new_device(&path, blocks, version);
+        let now = base + rng.below(1_000_000_000);
+        let steps = rng.range(1, 40);
+        let _ = run_workload(rng, &path, blocks, version, ttl, now, steps);
+        let mut img = std::fs::read(&path).unwrap();
+        let mut kind = "clean";
+        if rng.chance(1, 2) {
+            kind = mutate_image(rng, &mut img, version);
+        }
+        if rng.chance(1, 4) {
+            // an ambiguous legacy marker: tag only, everything else zero, in some data block
+            let b = rng.range(16, blocks - 1) as usize;
+            for x in &mut img[b * BS..(b + 1) * BS] { *x = 0; }
+            img[b * BS..b * BS + 8].copy_from_slice(b"\0DELETED");
+            kind = "ambiguous-marker";
+        }
+        let src = format!("{}/mig{}_src.feox", s.dir, w);
+        std::fs::write(&src, &img).unwrap();
+        for amb in [false, true] {
+            if amb && kind != "ambiguous-marker" && rng.chance(2, 3) {
+                continue;
+            }
+            let dst = format!("{}/mig{}_dst{}.feox", s.dir, w, amb as u8);
+            let _ = std::fs::remove_file(&dst);
+            let pre_existing = rng.chance(1, 10);
+            if pre_existing {
+                std::fs::write(&dst, b"precious").unwrap();
+            }
+            let r = catch_unwind(AssertUnwindSafe(|| {
+                feoxdb::migrate(feoxdb::MigrationOptions::new(src.clone(), dst.clone()).allow_ambiguous_legacy_recovery(amb))
+            }));
+            if std::fs::read(&src).unwrap() != img {
+                oracle.push(format!("migrate {}: the source file's bytes changed", src));
+            }
+            // no temporary file may be left behind
+            for e in std::fs::read_dir(&s.dir).unwrap().flatten() {
+                let n = e.file_name().to_string_lossy().to_string();
+                if n.contains(".feox-migrate-") {
+                    oracle.push(format!("migrate {}: temporary file {} left behind", src, n));
+                    let _ = std::fs::remove_file(e.path());
+                }
+            }
+            let line = match r {
+                Err(_) => "panic migrate".to_string(),
+                Ok(Err(e)) => {
+                    if pre_existing {
+                        if std::fs::read(&dst).unwrap() != b"precious" {
+                            oracle.push(format!("migrate {}: an existing destination was modified", src));
+                        }
+                    } else if std::path::Path::new(&dst).exists() {
+                        oracle.push(format!("migrate {}: failed ({}) but left a file at the destination", src, merr_name(&e)));
+                    }
+                    format!("err {} srcio=0", merr_name(&e))
+                }
+                Ok(Ok(rep)) => {
+                    if pre_existing {
+                        oracle.push(format!("migrate {}: overwrote an existing destination", src));
+                    }
+                    format!("ok records={} v={} dsize={} amb={} srcio=0 same=1 dv={} dsz={}", rep.records, rep.source_version,
+                        rep.destination_size, rep.ambiguous_legacy_markers, rep.destination_version, std::fs::metadata(&dst).map(|m| m.len()).unwrap_or(0))
+                }
+            };
+            if pre_existing {
+                // the model has no notion of the destination path: this case is oracle-only
+                let _ = std::fs::remove_file(&dst);
+                continue;
+            }
+            let dst_arg = if line.starts_with("ok") { dst.clone() } else { "-".to_string() };
+            s.emit(&format!("migrate-v{}-{}-{}", version, kind, line.split(' ').take(2).collect::<Vec<_>>().join("-")),
+                format!("migrate {} {} {} {}", src, amb as u8, s.recsize, dst_arg), line);
+        }
+    }
+}
+
 fn kv(extra: &[String], key: &str, default: usize) -> usize {
     for e in extra {
         if let Some(v) = e.strip_prefix(&format!("{}=", key)) {
@@ -827,6 +927,10 @@ fn main() {
     if sections.iter().any(|x| x == "golden") {
         let dir = kvs(&args.extra, "golden").unwrap_or_else(|| "/verif/golden".to_string());
         sec_golden(&mut s, &dir, &mut oracle);
+    }
+    if sections.iter().any(|x| x == "migrate") {
+        let w = kv(&args.extra, "workloads", 30 * k);
+        sec_migrate(&mut s, &mut rng, w, &mut oracle);
     }
     if sections.iter().any(|x| x == "recover") {
         let w = kv(&args.extra, "workloads", 30 * k);
